@@ -103,6 +103,10 @@ type add struct {
 	msgs [][]byte
 }
 
+// noClose as closeDelta: the source track is never terminated (Track.Add without Track.Close; SMF.Add reports that but
+// keeps the track, and the library terminates such tracks on writing)
+const noClose = ^uint32(0)
+
 // run builds the file through the public API, converts it and fills the record.
 func run(rec *Rec, adds []add, closeDelta uint32, div TF) {
 	rec.Ev = "cv"
@@ -124,7 +128,9 @@ func run(rec *Rec, adds []add, closeDelta uint32, div TF) {
 				tr = append(tr, smf.Event{Delta: d, Message: append([]byte{}, m...)})
 			}
 		}
-		tr = append(tr, smf.Event{Delta: closeDelta, Message: append([]byte{}, smf.EOT...)})
+		if closeDelta != noClose {
+			tr = append(tr, smf.Event{Delta: closeDelta, Message: append([]byte{}, smf.EOT...)})
+		}
 		s.Add(tr)
 	})
 	if p != "" {
@@ -193,14 +199,15 @@ func rerun(old Rec) Rec {
 	if n.Feat == nil {
 		n.Feat = []string{}
 	}
-	if len(old.Src) == 0 {
-		hx.Die("record without source events")
-	}
 	var adds []add
-	for _, e := range old.Src[:len(old.Src)-1] {
+	body, cd := old.Src, noClose
+	if k := len(old.Src); k > 0 && string(old.Src[k-1].M) == string(smf.EOT) {
+		body, cd = old.Src[:k-1], old.Src[k-1].delta()
+	}
+	for _, e := range body {
 		adds = append(adds, add{e.delta(), [][]byte{e.M}})
 	}
-	run(&n, adds, old.Src[len(old.Src)-1].delta(), old.Div)
+	run(&n, adds, cd, old.Div)
 	return n
 }
 
@@ -213,7 +220,7 @@ func genSmall(w *hx.Writer, max, part, parts int) {
 	id := 0
 	var rec func(adds []add)
 	rec = func(adds []add) {
-		for cd := uint32(0); cd <= 1; cd++ {
+		for _, cd := range []uint32{0, 1, noClose} {
 			if id%parts == part {
 				r := Rec{ID: id, Feat: []string{"small"}}
 				run(&r, adds, cd, TF{"metric", 96, 0})
@@ -400,6 +407,11 @@ func genRand(w *hx.Writer, n int, seed int64) {
 			cd = uint32(r.Intn(1000001))
 			feat["late_eot"] = true
 		}
+		if r.Intn(8) == 0 { // a source track that was never closed
+			cd = noClose
+			delete(feat, "late_eot")
+			feat["unclosed"] = true
+		}
 		rec := Rec{ID: id}
 		run(&rec, evs, cd, divs[r.Intn(len(divs))])
 		describe(&rec, feat)
@@ -413,7 +425,7 @@ func describe(rec *Rec, feat map[string]bool) {
 	chs := map[byte]bool{}
 	seen := map[string]bool{}
 	for i, e := range rec.Src {
-		if i == len(rec.Src)-1 {
+		if i == len(rec.Src)-1 && string(e.M) == string(smf.EOT) {
 			break
 		}
 		if e.Hi != 0 || e.Lo != 0 {
